@@ -60,9 +60,26 @@ func c08Setup(timeoutMs int) (*ServantProxy, *AdapterProxy) {
 	}
 	adp.tarsClient = transport.NewTarsClient(addr, adp, conf)
 	s := &ServantProxy{name: "obj", comm: comm, proto: &protocol.TarsProtocol{}, timeout: timeoutMs, version: 1}
+	if !vapi.Engine() {
+		s.proto = &c08NativeProto{}
+	}
 	s.manager = &c08Mgr{adp}
 	adp.servantProxy = s
 	return s, adp
+}
+
+// native replay: the request id is handed to the peer from inside RequestPack, i.e. while the
+// call is registered but not yet waiting for its reply, and the caller pauses there for a moment:
+// whatever the peer script sends now (duplicates included) is parked in Recv on the call's reply
+// channel before the caller goes on - the interleaving the engine finds by scheduling is then
+// reproduced deterministically instead of by luck.
+type c08NativeProto struct{ protocol.TarsProtocol }
+
+func (p *c08NativeProto) RequestPack(req *requestf.RequestPacket) ([]byte, error) {
+	b, err := p.TarsProtocol.RequestPack(req)
+	c08Wire <- req.IRequestId
+	time.Sleep(5 * time.Millisecond)
+	return b, err
 }
 
 func c08NativeWire() string {
@@ -90,10 +107,7 @@ func c08NativeWire() string {
 						if l < 4 || len(buf) < l {
 							break
 						}
-						var p requestf.RequestPacket
-						_ = p.ReadFrom(codec.NewReader(buf[4:l]))
-						buf = buf[l:]
-						c08Wire <- p.IRequestId
+						buf = buf[l:] // swallowed: the ids reach the peer through c08NativeProto
 					}
 				}
 			}(c)
@@ -200,6 +214,27 @@ func c08Demux(steps, callers int) {
 		vapi.Check(calls[0].id != calls[1].id, "concurrently outstanding calls never share an id")
 	}
 	vapi.Check(atomic.LoadInt32(&s.queueLen) == 0, "in-flight counter is back to zero")
+}
+
+// VerifC08Sequential: one caller makes two calls in a row while the peer answers the first one
+// possibly twice / late / with stray ids: whatever is still in flight for the first call
+// (a duplicate reply parked in Recv, a recycled reply channel) must not reach the second call.
+func VerifC08Sequential()     { c08Sequential(2) }
+func VerifC08SequentialLong() { c08Sequential(3) }
+
+func c08Sequential(steps int) {
+	msgID = 6
+	s, adp := c08Setup(50)
+	var calls [2]c08Call
+	go c08Peer(adp, steps)
+	c08Invoke(s, &calls[0], 50)
+	c08Invoke(s, &calls[1], 50)
+	vapi.Quiesce()
+	c08Check(adp, &calls[0])
+	c08Check(adp, &calls[1])
+	vapi.Check(calls[0].id != calls[1].id, "successive calls do not share an id")
+	vapi.Check(atomic.LoadInt32(&s.queueLen) == 0, "in-flight counter is back to zero")
+	vapi.Reach("c08-sequential")
 }
 
 func VerifC08Demux()     { c08Demux(2, 2); vapi.Reach("c08-demux") }
